@@ -35,6 +35,10 @@ class SymCtx:
         self.only_claim = None
 
     # inputs -----------------------------------------------------------------
+    def _declare(self, *cs):
+        self.ex.assumptions.extend(cs)
+        self.ex.add(*cs)
+
     def real(self, name, lo=None, hi=None, nonzero=False):
         v = core.fresh_real(name)
         if not hasattr(self.ex, "input_bounds") or self.ex.input_bounds_owner is not self.ex.cons:
@@ -49,7 +53,7 @@ class SymCtx:
         if nonzero:
             cs.append(v.e != 0)
         if cs:
-            self.ex.add(*cs)
+            self._declare(*cs)
         return v
 
     def reals(self, names, lo=None, hi=None):
@@ -59,7 +63,7 @@ class SymCtx:
         v = z3.Int(name)
         self.ex.inputs[name] = v
         self.ex.has_int = True
-        self.ex.add(v >= lo, v <= hi)
+        self._declare(v >= lo, v <= hi)
         return SymInt(v)
 
     def string(self, name, length, alphabet=None):
@@ -69,7 +73,7 @@ class SymCtx:
         for i in range(length):
             c = symstr.fresh_char("%s[%d]" % (name, i))
             if alphabet is not None:
-                self.ex.add(z3.Or([c == ord(a) for a in alphabet]))
+                self._declare(z3.Or([c == ord(a) for a in alphabet]))
             chars.append(c)
         self.ex.inputs_strings = getattr(self.ex, "inputs_strings", {})
         self.ex.inputs_strings[name] = chars
@@ -83,7 +87,7 @@ class SymCtx:
                 continue
             c = symstr.fresh_char("%s[%d]" % (name, i))
             if a is not None:
-                self.ex.add(z3.Or([c == ord(x) for x in a]))
+                self._declare(z3.Or([c == ord(x) for x in a]))
             cs.append(c)
         self.ex.inputs_strings = getattr(self.ex, "inputs_strings", {})
         self.ex.inputs_strings[name] = cs
@@ -96,11 +100,13 @@ class SymCtx:
         return core.fresh_real(name)
 
     # conditions ---------------------------------------------------------------
-    def eq(self, a, b): return _t(a) == _t(b)
+    # `scale` only matters to the concrete (float) evaluation of the same claim: it names the magnitude of the terms
+    # that cancel in a - b, so that the float tolerance is relative to them; the solver compares exact reals
+    def eq(self, a, b, scale=None): return _t(a) == _t(b)
     def ne(self, a, b): return _t(a) != _t(b)
-    def le(self, a, b): return _t(a) <= _t(b)
+    def le(self, a, b, scale=None): return _t(a) <= _t(b)
     def lt(self, a, b): return _t(a) < _t(b)
-    def ge(self, a, b): return _t(a) >= _t(b)
+    def ge(self, a, b, scale=None): return _t(a) >= _t(b)
     def gt(self, a, b): return _t(a) > _t(b)
     xeq, xne, xle, xlt, xge, xgt = eq, ne, le, lt, ge, gt
 
@@ -125,6 +131,10 @@ class SymCtx:
     def cos(self, x): return core.sym_cos(x)
     def sin(self, x): return core.sym_sin(x)
     def tan(self, x): return core.sym_tan(x)
+
+    def angle_brackets(self, x, points):
+        """facts about the real cos/sin of angle x (monotone enclosures at the given breakpoints); no-op concretely"""
+        core.angle_brackets(x, points)
 
     def num(self, x):
         """exact constant (Fraction/float/int) as a symbolic-compatible number"""
@@ -188,7 +198,55 @@ class SymCtx:
         if feas == "unsat":
             raise PathAbort("vacuous path")
         t0 = time.time()
-        r, m = ex.check(z3.Not(cond), timeout_ms=self.claim_timeout_ms)
+        r = "unknown"
+        m = None
+        if ex.model is not None:
+            # the path's own witness may already refute the claim (no search needed)
+            try:
+                v = ex.model.eval(cond, model_completion=True)
+                if z3.is_false(v) and all(z3.is_true(ex.model.eval(c, model_completion=True)) for c in ex.cons[-5:]):
+                    r, m = "sat", ex.model
+                    rec["by_witness"] = True
+            except z3.Z3Exception:
+                pass
+        sliced_first = r == "unknown" and ex.has_int and ex.nonlinear
+        if sliced_first:
+            # the path carries integer variables (modulo, rounding) that push every query to the generic solver;
+            # the claim's cone of influence often does not: prove it there with nlsat first
+            sl = ex.check_sliced(z3.Not(cond), timeout_ms=self.claim_timeout_ms)
+            if sl is not None and sl[0] == "unsat":
+                r = "unsat"
+                rec["sliced"] = True
+        if r == "unknown" and getattr(ex, "param_first", False):
+            pr = ex.check_param(z3.Not(cond), timeout_ms=self.claim_timeout_ms * 4)
+            if pr is not None and pr[0] != "unknown":
+                r, m = pr
+                rec["param"] = True
+        if r == "unknown":
+            r, m = ex.check(z3.Not(cond), timeout_ms=self.claim_timeout_ms)
+        if r == "unknown":
+            # second attempt on the claim's cone of influence only (sound for 'unsat'; a model found there is a
+            # candidate that the replay has to confirm)
+            sl = ex.check_sliced(z3.Not(cond), timeout_ms=self.claim_timeout_ms)
+            if sl is not None and sl[0] != "unknown":
+                r, m = sl
+                rec["sliced"] = True
+                if r == "sat":
+                    # extend the slice's model to the whole path: pin the inputs it fixed and solve for the rest
+                    pins = []
+                    for name, var in ex.inputs.items():
+                        v = m.eval(var, model_completion=False)
+                        if not v.eq(var):
+                            pins.append(var == v)
+                    r2, m2 = ex.check(z3.Not(cond), *pins, timeout_ms=min(self.claim_timeout_ms, 10000))
+                    if r2 == "sat":
+                        m = m2
+                        rec["sliced"] = "extended"
+        if r == "unknown" and not rec.get("param") and ex.subatoms:
+            pr = ex.check_param(z3.Not(cond), timeout_ms=self.claim_timeout_ms * 2)
+            if pr is not None and pr[0] != "unknown":
+                r, m = pr
+                rec["param"] = True
         rec["solver_s"] = round(time.time() - t0, 4)
         if r == "unsat":
             rec["verdict"] = "proved" if feas == "sat" else "proved_if_reachable"
@@ -199,7 +257,64 @@ class SymCtx:
                 rec["inputs_alt"] = self.last_raw_inputs   # the model's own values, before angles were made physical
         else:
             rec["verdict"] = "unknown"
+            if not getattr(ex, "_probed", False):
+                ex._probed = True
+                rec["probes"] = self.probe_inputs()
         self.records.append(rec)
+
+    def probe_inputs(self, n=6):
+        """inputs in general position that satisfy the constraints stated on inputs alone (ranges, assumptions):
+        used to test undecided claims concretely; a failing one is replayed like any counterexample"""
+        ex = self.ex
+        names = {v.decl().name() for v in ex.inputs.values()}
+
+        def only_inputs(c):
+            todo, seen = [c], set()
+            while todo:
+                t = todo.pop()
+                if t.get_id() in seen:
+                    continue
+                seen.add(t.get_id())
+                if z3.is_const(t) and t.decl().kind() == z3.Z3_OP_UNINTERPRETED and t.decl().name() not in names:
+                    return False
+                todo.extend(t.children())
+            return True
+        bounds0 = getattr(ex, "input_bounds", {})
+        base = [c for c in ex.assumptions if only_inputs(c)]
+        for nm, var in ex.inputs.items():
+            lo, hi = bounds0.get(nm, (None, None))
+            if lo is not None:
+                base.append(var >= lo)
+            if hi is not None:
+                base.append(var <= hi)
+        reals = [v for v in ex.inputs.values() if z3.is_real(v)]
+        out = []
+        s = z3.Solver()
+        s.set("timeout", 2000)
+        s.add(*base)
+        import itertools
+        # general position, well conditioned: inputs differ pairwise by at least 1/4 and stay away from 0
+        bounds = getattr(ex, "input_bounds", {})
+
+        def wide(v):
+            lo, hi = bounds.get(v.decl().name(), (None, None))
+            return lo is None or hi is None or hi - lo >= 4
+        wr = [v for v in reals if wide(v)]
+        for i, (a, b) in enumerate(itertools.combinations(wr, 2)):
+            if i < 80:
+                s.add(z3.Or(a - b >= 0.25, b - a >= 0.25), z3.Or(a + b >= 0.25, a + b <= -0.25))
+        for v in wr:
+            s.add(z3.Or(v >= 0.125, v <= -0.125))
+        for k in range(n):
+            if s.check() != z3.sat:
+                break
+            m = s.model()
+            out.append(self.model_inputs(m))
+            # move away: next point differs from this one in every real input by more than 1/3 of its magnitude + 1/7
+            for v in reals[:12]:
+                val = m.eval(v, model_completion=True)
+                s.add(z3.Or(v > val * 1.37 + 0.143, v < val * 0.61 - 0.143) if k % 2 == 0 else z3.Or(v > val + 1.7, v < val - 2.3))
+        return out
 
     def claim_eq(self, name, a, b):
         self.claim(name, self.eq(a, b))
